@@ -48,6 +48,19 @@ func intBoundaries() []int {
 	}
 	set[math.MaxInt-1] = true
 	set[math.MinInt+1] = true
+	// k*2^s + v: values on which a multiplication of the count by a small constant wraps
+	// around into the accepted range
+	for s := uint(31); s <= 63; s++ {
+		for k := -7; k <= 7; k++ {
+			if k == 0 {
+				continue
+			}
+			base := int(int64(k) << s)
+			for v := 0; v <= 40; v++ {
+				set[base+v] = true
+			}
+		}
+	}
 	out := make([]int, 0, len(set))
 	for v := range set {
 		out = append(out, v)
@@ -57,7 +70,7 @@ func intBoundaries() []int {
 }
 
 func runC09(c *Ctx) {
-	c.res.Rule = "NewMnemonicByEntropy for nil and every slice length 0..4096 plus 2^k, 2^k+-1 up to 2^20 (2^24 thorough), contents 0x00 and 0xFF, x 10 languages; NewMnemonic for every count in [-4096,4096] plus {+-2^k, +-2^k+-1, int extremes} x 10 languages with a counting source. Oracle: success <=> size is one of the five; rejection = (\"\", errors.Is sentinel) with zero Read calls; success = non-empty mnemonic with the right number of list words and nil error. distinct_nontrivial = distinct (length or count, language) pairs"
+	c.res.Rule = "NewMnemonicByEntropy for nil and every slice length 0..4096 plus 2^k, 2^k+-1, 2^k+valid, 3*2^k+valid up to 2^20 (2^24 thorough), contents 0x00 and 0xFF, x 10 languages; NewMnemonic for every count in [-4096,4096] plus {+-2^k, +-2^k+-1, k*2^s+v for |k|<=7, s in 31..63, v in 0..40, int extremes} x 10 languages with a counting source. Oracle: success <=> size is one of the five; rejection = (\"\", errors.Is sentinel) with zero Read calls; success = non-empty mnemonic with the right number of list words and nil error. distinct_nontrivial = distinct (length or count, language) pairs"
 	c.Assume("only supported languages are constrained")
 	lens := map[int]bool{}
 	for n := 0; n <= 4096; n++ {
@@ -67,10 +80,14 @@ func runC09(c *Ctx) {
 	if c.Thorough {
 		maxk = 24
 	}
-	for k := uint(12); k <= maxk; k++ {
+	for k := uint(8); k <= maxk; k++ {
 		lens[1<<k] = true
 		lens[1<<k-1] = true
 		lens[1<<k+1] = true
+		for _, v := range []int{16, 20, 24, 28, 32} {
+			lens[1<<k+v] = true // lengths that look valid after truncation to k bits
+			lens[3<<k+v] = true
+		}
 	}
 	var ll []int
 	for n := range lens {
